@@ -64,7 +64,26 @@ func main() {
 		os.Exit(1)
 	}
 	extra := map[string]interface{}{}
+	selfOK := true
+	if *tier == "thorough" && os.Getenv("SPECVET_NOSELFTEST") == "" {
+		var st []selfTestResult
+		st, selfOK = runSelfTest(p.ID, *repo)
+		n := map[string]int{}
+		for _, r := range st {
+			n[r.Status]++
+		}
+		extra["checker_selftest"] = map[string]interface{}{
+			"what":    "mutation corpus: one rule instance broken per scratch copy of /repo; the rule must report it (tests the analysis, the library is never executed)",
+			"results": st, "counts": n,
+		}
+	}
 	code := report(p, *tier, seed, res, start, extra, !*noEvidence)
+	if !selfOK {
+		fmt.Println("CHECKER-ERROR a located mutant of the self-test corpus was not reported: the checker is broken (this is not a statement about /repo)")
+		if code == 0 {
+			code = 2
+		}
+	}
 	os.Exit(code)
 }
 
